@@ -32,9 +32,16 @@ class Result:
         return "%s rc=%s sig=%s: %s" % (self.kind, self.rc, self.sig, " | ".join((errs or tail)[:6])[:600])
 
 
-def _limits(cpu_s, as_mb):
+class HarnessError(Exception):
+    pass
+
+
+def _limits(cpu_s, as_mb, nofile=None):
     def f():
         resource.setrlimit(resource.RLIMIT_CPU, (cpu_s, cpu_s + 1))
+        if nofile:
+            hard = resource.getrlimit(resource.RLIMIT_NOFILE)[1]
+            resource.setrlimit(resource.RLIMIT_NOFILE, (nofile, hard))
         resource.setrlimit(resource.RLIMIT_CORE, (0, 0))
         if as_mb:
             resource.setrlimit(resource.RLIMIT_FSIZE, (as_mb << 20, as_mb << 20))
@@ -42,7 +49,7 @@ def _limits(cpu_s, as_mb):
     return f
 
 
-def run(cmd, cwd=None, env=None, cpu_s=10, wall_s=60, heapbuf=False, stdin=None, fsize_mb=512):
+def run(cmd, cwd=None, env=None, cpu_s=10, wall_s=60, heapbuf=False, stdin=None, fsize_mb=512, nofile=None):
     e = dict(os.environ)
     e["OVNI_CONFIG_DIR"] = os.path.join(_b.REPO, "cfg")
     e["ASAN_OPTIONS"] = ASAN_OPTS
@@ -56,9 +63,11 @@ def run(cmd, cwd=None, env=None, cpu_s=10, wall_s=60, heapbuf=False, stdin=None,
     try:
         p = subprocess.Popen(cmd, cwd=cwd, env=e, stdin=subprocess.PIPE if stdin is not None else subprocess.DEVNULL,
                              stdout=subprocess.PIPE, stderr=subprocess.PIPE,
-                             preexec_fn=_limits(cpu_s, fsize_mb))
+                             preexec_fn=_limits(cpu_s, fsize_mb, nofile))
     except OSError as ex:
-        return Result(None, None, b"", str(ex).encode(), "spawn-error", cmd)
+        # a tool that cannot even be started is a problem of the harness (missing build
+        # target), never a verdict on the property
+        raise HarnessError("cannot start %s: %s" % (cmd[0], ex))
     try:
         out, err = p.communicate(stdin, timeout=wall_s)
     except subprocess.TimeoutExpired:
